@@ -8,6 +8,9 @@ usage: selftest/mutants.py [id-prefix ...]     results -> selftest/mutants-resul
 import json, os, subprocess, sys, time
 
 REPO = "/repo"
+SCRATCH = os.environ.get("MUT_SCRATCH") == "1"  # work on a scratch worktree (removed afterwards) and point the harness at it
+if SCRATCH:
+    REPO = "/tmp/mutrun"
 ENV = dict(os.environ, GOFLAGS="-mod=mod", GOPROXY="off", GOSUMDB="off", GOTOOLCHAIN="local")
 
 # (id, file, old, new, [checks expected to fire], note)
@@ -92,7 +95,11 @@ def sh(cmd, cwd=None, timeout=1800):
 
 def main():
     want = sys.argv[1:]
-    assert sh("git status --porcelain", REPO)[1].strip() == "", "/repo has uncommitted changes"
+    if SCRATCH:
+        sh("git -C /repo worktree remove --force %s" % REPO)
+        rc, out = sh("git -C /repo worktree add -q --detach %s HEAD" % REPO)
+        assert rc == 0, out
+    assert sh("git status --porcelain", REPO)[1].strip() == "", "%s has uncommitted changes" % REPO
     results = []
     for (mid, f, old, new, checks, note) in M:
         if want and not any(mid.startswith(w) or w in checks for w in want):
@@ -115,7 +122,7 @@ def main():
             if builds:
                 for c in checks:
                     t0 = time.time()
-                    crc, cout = sh("./vcheck %s quick" % c, "/verif")
+                    crc, cout = sh("VERIF_REPO=%s ./vcheck %s quick" % (REPO, c), "/verif")
                     first = [l for l in cout.splitlines() if l.startswith("  ")][:1]
                     row["checks"][c] = {"rc": crc, "s": round(time.time() - t0, 1), "first": (first[0].strip()[:160] if first else cout.strip()[-160:])}
             results.append(row)
@@ -123,7 +130,9 @@ def main():
             print(mid, "builds" if builds else "NOBUILD", "tests-pass" if tests_pass else "TESTS-FAIL", "detected-by=%s" % det, "missed-by=%s" % [c for c, v in row["checks"].items() if v["rc"] != 1], "|", note)
         finally:
             sh("git checkout -- .", REPO)
-    json.dump(results, open("/verif/selftest/mutants-result.json", "w"), indent=1)
+    if SCRATCH:
+        sh("git -C /repo worktree remove --force %s" % REPO)
+    json.dump(results, open("/verif/selftest/mutants-result.json" if not want else "/tmp/mutants-partial.json", "w"), indent=1)
     sh("rm -rf /verif/replays/*")
 
 main()
